@@ -239,8 +239,20 @@ def run_c16(ctx):
         def at_end(s):
             with rec.paused():
                 c16_cases(s, cases, "history %d" % len(rec.traces), rng)
-        n = drv_edit.replay_sim(rec, behs, analyses=at_end)
-        res.extra["sim_replay"] = {"behaviours": len(behs), "depth": depth, "calls": n}
+        def mid(s):
+            # an analysis in the middle of the history (caches, derived tables) must not show in the final reports
+            with rec.paused():
+                try:
+                    import contextlib
+                    import io
+                    with warnings.catch_warnings(), contextlib.redirect_stdout(io.StringIO()):
+                        warnings.simplefilter("ignore")
+                        rng.choice([s.solve, s.params, s.tree, s.phases])()
+                except Exception:
+                    pass
+        mb, _ = tlc.run_sim("SimEdit.tla", "SimMux.cfg", ctx.work, num=num // 4, depth=depth, seed=ctx.seed + 8)
+        n = drv_edit.replay_sim(rec, behs + mb, analyses=at_end, mid=mid, rng=rng)
+        res.extra["sim_replay"] = {"behaviours": len(behs) + len(mb), "depth": depth, "calls": n}
         # every state of the bounded edit graph, reached along a shortest accepted history
         inits, edges, nodes, cnt = tlc.run_dump("MCEdit.tla", "MCEdit2.cfg" if q else "MCEditQ.cfg", ctx.work)
         seen = [0]
@@ -342,6 +354,18 @@ def batt_cases(ctx, n_sys, faults):
             cap0 = rng.uniform(0.01, 5.0)
         kind = rng.choice(["const", "sag", "ir"])
         cutoff = v0 * rng.choice([0.0, 0.5, 0.85, 0.95])
+        if rng.random() < 0.25:
+            # the battery Source is declared with 0 V: batt_life takes voltage and impedance from the battery model
+            from decwire import cell
+            from rebuild import rebuild
+            st2 = project(s)
+            for c in st2["comps"]:
+                if c["name"] == bat:
+                    c["pay"]["params"]["vo"] = {"k": "c", "v": cell(0.0)}
+            try:
+                s = rebuild(st2)
+            except Exception:
+                pass
 
         def fresh():
             return drv_batt.numeric_model(kind, cap0, v0, r0, rng)
